@@ -118,6 +118,7 @@ class GridDriver:
         table = self.pos_table()
         cid = table.index(list(c))
         fn = w.get_moore_neighbours if kind == "moore" else w.get_neumann_neighbours
+        kind = "".join(list(kind))          # an equal string that is a different object (text parameters arrive like this)
 
         def pc(off):
             # the SAME component object for every query of this world, moved to the queried cell (like an agent's
@@ -173,7 +174,31 @@ class GridDriver:
         W, H, D = [max(e, 1) for e in self.shape]
         vals = []
         if kind == "callable":
-            gen = lambda pos, cells: 100 * pos[0] + 10 * pos[1] + pos[2] + k  # noqa: E731
+            # the same function in the forms user code writes it: plain, with the loop variable bound as a default, as a partial,
+            # as an object with __call__ - all are called as generator(pos, cells)
+            form = getattr(self, "ncall", 0) % 4
+            self.ncall = getattr(self, "ncall", 0) + 1
+            if form == 0:
+                gen = lambda pos, cells: 100 * pos[0] + 10 * pos[1] + pos[2] + k  # noqa: E731
+            elif form == 1:
+                gen = lambda pos, cells, k=k, scale=1: (100 * pos[0] + 10 * pos[1] + pos[2] + k) * scale  # noqa: E731
+            elif form == 2:
+                import functools
+
+                def _g(pos, cells, off=0):
+                    return 100 * pos[0] + 10 * pos[1] + pos[2] + off
+                gen = functools.partial(_g, off=k)
+            else:
+                class _G:
+                    def __call__(self, pos, cells):
+                        return 100 * pos[0] + 10 * pos[1] + pos[2] + k
+                gen = _G()
+        elif kind == "bigcall":
+            # a generator whose arithmetic passes through numbers far beyond 64 bits (coordinates are plain integers)
+            gen = lambda pos, cells: ((100 * pos[0] + 10 * pos[1] + pos[2] + k) * 10 ** 19 + 7) // 10 ** 19  # noqa: E731
+        elif kind == "tconst3":
+            # a list-like constant (an RGB triple) whose length has nothing to do with the number of cells
+            gen = ConstantGenerator((k, k + 1, k + 2))
         elif kind == "halve":
             if name not in w.cells.columns or not all(isinstance(v, (int, np.integer)) for v in w.cells[name]):
                 return
@@ -242,7 +267,7 @@ class GridDriver:
         if exc is None:
             self.reps = getattr(self, "reps", {})
             self.reps[name] = {"mixlist": "mix", "farray": "f"}.get(kind)
-        self.events.append({"op": "add_cell_component", "name": name, "kind": {"roarray": "array", "farray": "array", "tconst": "constant", "mixlist": "list", "tuplist": "list"}.get(kind, kind), "k": k, "vals": vals, "dims": self.dims,
+        self.events.append({"op": "add_cell_component", "name": name, "kind": {"roarray": "array", "farray": "array", "tconst": "constant", "tconst3": "constant", "bigcall": "callable", "mixlist": "list", "tuplist": "list"}.get(kind, kind), "k": k, "vals": vals, "dims": self.dims,
                             "out": outcome(exc), "cols": self.cols()})
 
     def op_mutate(self, name):
@@ -298,12 +323,13 @@ def c09_programs(max_ext):
     out = []
     for s in shapes(max_ext):
         for cls in classes_for(s):
-            prog = [["grid", cls, s, (sum(s) + len(out)) % 2 == 1], ["add", "p", "callable", 3], ["add", "q", "list", 1]]
+            lk = ("list", "mixlist", "tuplist")[len(out) % 3]          # plain / mixed numbers and text / one tuple per cell
+            prog = [["grid", cls, s, (sum(s) + len(out)) % 2 == 1], ["add", "p", "callable", 3], ["add", "q", lk, 1]]
             prog += [["id_of", c] for c in cells(s)]
             prog += [["get_cell", c] for c in probe(s)]
             # the row must be the cell's CURRENT row: look every cell up again after components were removed / replaced
             prog += [["remove", "p"]] + [["get_cell", c] for c in cells(s)]
-            prog += [["add", "q", "constant", 8], ["add", "r", "callable", 1]] + [["get_cell", c] for c in cells(s)]
+            prog += [["add", "q", ("constant", "tconst", "tconst3")[len(out) % 3], 8], ["add", "r", "callable", 1]] + [["get_cell", c] for c in cells(s)]
             prog += [["remove", "q"], ["remove", "nope"]] + [["get_cell", c] for c in cells(s)]
             prog += [["add", "r", "halve", 0]] + [["get_cell", c] for c in cells(s)]
             out.append(prog)
@@ -338,7 +364,7 @@ def c11_random_program(rng, max_ext=3, length=10):
     for _ in range(length):
         r = rng.random()
         if r < 0.55:
-            prog.append(["add", rng.choice(names), rng.choice(["callable", "constant", "tconst", "list", "mixlist", "tuplist", "array", "farray", "roarray", "lookup", "lookup", "halve", "halve"]), rng.choice([0, 3, 5, -4])])
+            prog.append(["add", rng.choice(names), rng.choice(["callable", "callable", "bigcall", "constant", "tconst", "tconst3", "list", "mixlist", "tuplist", "array", "farray", "roarray", "lookup", "lookup", "halve", "halve"]), rng.choice([0, 3, 5, -4])])
         elif r < 0.7:
             prog.append(["mutate", rng.choice(names)])
         elif r < 0.9:
